@@ -90,9 +90,15 @@ def cases(draw):
     tree = dict(draw(specgen.trees(features=FEATURES)))
     tree.pop("_excluded", None)
     edit = draw(st.sampled_from([n for n, _ in specedit.CATALOGUE]))
-    blob = draw(st.binary(min_size=24, max_size=24))      # eight 24-bit choices (byte strings are drawn far more evenly than lists of integers)
-    picks = [int.from_bytes(blob[i:i + 3], "big") for i in range(0, 24, 3)]
-    return {"tree": tree, "edit": edit, "picks": picks, "v": 2}
+    # eight choices for the edit. Hypothesis re-uses a few favourite values for such side inputs (zeros, repeated
+    # numbers), which ties the choices at different depths of an edit together; they are therefore derived from
+    # a digest of the drawn bytes AND the tree, and recorded in the case
+    import hashlib
+    import json
+    blob = draw(st.binary(min_size=8, max_size=8))
+    dig = hashlib.blake2b(blob + edit.encode() + json.dumps(tree, sort_keys=True, default=str).encode(), digest_size=24).digest()
+    picks = [int.from_bytes(dig[i:i + 3], "big") for i in range(0, 24, 3)]
+    return {"tree": tree, "edit": edit, "picks": picks, "v": 3}
 
 
 def run_task(task):
